@@ -236,6 +236,9 @@ class Broker:
     def on_frame(self, link, frame):
         self.cluster.handle(self, link, frame)
 
+    def on_frame_queued(self, link, frame):
+        self.cluster.frame_queued(self, link, frame)
+
     def go_down(self):
         self.up = False
         self.incarnation = getattr(self, "incarnation", 0) + 1     # requests still queued inside the broker die with it
@@ -340,6 +343,29 @@ class SimCluster:
         return {"leaders": dict(self.leaders), "topics": {t: len(l) for t, l in self.topics.items()},
                 "up": {n: (b.up or b.listed_while_down) for n, b in self.brokers.items()}}
 
+    # ---------------------------------------------------------------- connection-level in-flight tap
+    def frame_queued(self, broker, link, frame):
+        """A frame reached the broker on a connection whose previous request is still unanswered (delayed, or its
+        reply will never come).  Two Produce requests carrying the same partition outstanding on ONE open connection
+        are two batches of that partition in flight, whatever the client-side bookkeeping says."""
+        cur = link.state.get("current")
+        if cur is None or cur.get("api") != "Produce" or cur["req"].get("acks") == 0:
+            return
+        try:
+            api_key, version, corr, client_id, off = wire.decode_request_header(frame)
+            if api_key != 0:
+                return
+            req = wire.decode_request_body(api_key, version, frame, off)
+        except Exception:  # noqa: BLE001 - judged when the frame is handled
+            return
+        def parts(r):
+            return {(t["name"], p["index"]) for t in r["topic_data"] for p in t["partition_data"]}
+        self.stats_queued_produce = getattr(self, "stats_queued_produce", 0) + 1
+        both = parts(cur["req"]) & parts(req)
+        if both:
+            self.log("produce_behind_unanswered_produce", node=broker.node_id, link=link.id, partitions=sorted(both),
+                     first_corr=cur["corr"], first_fate=repr(cur["fate"]), first_t=cur["time"], second_corr=corr)
+
     # ---------------------------------------------------------------- request entry
     def handle(self, broker, link, frame):
         try:
@@ -375,6 +401,7 @@ class SimCluster:
             return
         fate = self.faults.fate(ctx)
         ctx["fate"] = fate
+        link.state["current"] = ctx
         ev = self.log("request", api=name, version=version, node=broker.node_id, client_id=client_id,
                       fate=repr(fate) if fate.kind != "ok" else "ok", link=link.id)
         ctx["ev"] = ev
